@@ -7,9 +7,10 @@ statements depend on are the regenerated ones (`Generated/EvalTables.lean`).
 -/
 import MesonModel.Eval.Lemmas
 import MesonModel.Eval.Frame
+import MesonModel.Eval.StrLemmas
 
 namespace MesonModel.Props.C01
-open MesonModel.Eval MesonModel.Generated
+open MesonModel.Eval MesonModel.Generated MesonModel.Py
 
 /-- evaluation of `n` entered with `current_node` set to line `ln` -/
 abbrev at_ (s : St) (ln : Nat) : St := { s with line := ln }
@@ -257,6 +258,400 @@ theorem method_parameter_types :
 
 example : methodCall (.str cs!"abc") cs!"contains" [.int 1] [] = .error .invalidArguments := by rfl
 example : methodCall (.dict []) cs!"has_key" [.str cs!"a", .str cs!"b"] [] = .error .invalidArguments := by rfl
+
+/-! ### stringification (`stringifyUserArguments`: `message()`, `.format()`, f-strings) -/
+
+/-- the texts of the scalars: a bool is `true`/`false`, an int its decimal digits, a string itself at
+top level and single-quoted inside a container -/
+theorem stringify_scalars (q : Bool) (b : Bool) (i : Int) (s : Str) :
+    stringify q (.bool b) = some (if b then cs!"true" else cs!"false") ∧
+    stringify q (.int i) = some (intStr i) ∧
+    stringify false (.str s) = some s ∧
+    stringify true (.str s) = some (['\''] ++ s ++ ['\'']) := ⟨rfl, rfl, rfl, rfl⟩
+
+/-- a bool never prints like an int (in particular `true`/`1` and `false`/`0` differ), whatever the
+quoting level of either -/
+theorem stringify_bool_ne_int (q q' : Bool) (b : Bool) (i : Int) :
+    stringify q (.bool b) ≠ stringify q' (.int i) := by
+  intro h
+  have h' : (if b then cs!"true" else cs!"false") = intStr i := by
+    simpa [stringify] using h
+  have hc := intStr_chars i
+  rw [← h'] at hc
+  cases b
+  · have := hc 'f' (by simp)
+    simp [isDigit] at this
+  · have := hc 't' (by simp)
+    simp [isDigit] at this
+
+/-- different integers print differently, and so do the two booleans -/
+theorem stringify_int_injective (q q' : Bool) (i j : Int) (h : stringify q (.int i) = stringify q' (.int j)) :
+    i = j := intStr_injective i j (by simpa [stringify] using h)
+
+theorem stringify_bool_injective (q q' : Bool) (a b : Bool) (h : stringify q (.bool a) = stringify q' (.bool b)) :
+    a = b := by
+  cases a <;> cases b <;> first | rfl | (simp [stringify] at h)
+
+/-- inside a container a string is quoted, so it cannot be taken for an int or a bool either -/
+theorem stringify_quoted_str_ne_scalar (q : Bool) (s : Str) (b : Bool) (i : Int) :
+    stringify true (.str s) ≠ stringify q (.bool b) ∧ stringify true (.str s) ≠ stringify q (.int i) := by
+  constructor
+  · cases b <;> simp [stringify]
+  · intro h
+    have h' : '\'' :: (s ++ ['\'']) = intStr i := by simpa [stringify] using h
+    have := intStr_chars i '\'' (by rw [← h']; simp)
+    simp [isDigit] at this
+
+/-- the one collision there is, by design: at top level a string prints verbatim, so `'1'` and `1`
+(or `'true'` and `true`) give the same text -/
+theorem stringify_toplevel_str_verbatim :
+    stringify false (.str cs!"1") = stringify false (.int 1) ∧
+    stringify false (.str cs!"true") = stringify false (.bool true) := by decide
+
+/-- arrays, at any nesting depth and whatever the outer quoting level: `[`, the elements printed in
+QUOTED mode separated by `, `, `]`; the array is printable iff every element is -/
+theorem stringify_array (q : Bool) (l : List Val) :
+    (∀ xs, printedAs l xs →
+      stringify q (.arr l) = some (['['] ++ joinStr [',', ' '] xs ++ [']'])) ∧
+    (stringify q (.arr l) = none ↔ stringifyL l = none) := by
+  constructor
+  · intro xs h
+    simp [stringify, (stringifyL_spec l xs).mpr h]
+  · simp [stringify]
+
+/-- dictionaries: `{`, then `'key' : value` (value in quoted mode) in insertion order, `}` -/
+theorem stringify_dict_entry (q : Bool) (k : Str) (v : Val) (x : Str) (h : stringify true v = some x) :
+    stringify q (.dict [(k, v)]) = some (['{'] ++ (['\''] ++ k ++ ['\'', ' ', ':', ' '] ++ x) ++ ['}']) := by
+  simp [stringify, stringifyD, h, joinStr]
+
+example : stringify false (.arr [.int 1, .bool true, .str cs!"1", .arr [.bool false, .int 0]]) =
+    some cs!"[1, true, '1', [false, 0]]" := by decide
+
+/-! ### `.format()`: every `@N@` replaced exactly once, left to right, inserted text never rescanned -/
+
+theorem methods_str_has (name : Str) (h : (methodsOf .str).contains name = true) (s : Str) :
+    (methodsOf (Val.str s).ty).contains name = true := h
+
+/-- `.format()` is: stringify the arguments, split the TEMPLATE into pieces, one pass over the pieces -/
+theorem format_method (s : Str) (raw : List Val) (strs : List Str) (h : stringifyArgs raw = some strs) :
+    methodCall (.str s) cs!"format" raw [] =
+      (match substPieces strs (fmtPieces s 0) with
+       | some r => .ok (.str r)
+       | none => .error .invalidArguments) := by
+  unfold methodCall
+  rw [methods_str_has cs!"format" (by decide) s]
+  simp only [Bool.not_true, Bool.false_eq_true, ↓reduceIte, strMethod]
+  have e1 : ¬ (cs!"format" = cs!"contains") := by decide
+  have e2 : ¬ (cs!"format" = cs!"startswith") := by decide
+  have e3 : ¬ (cs!"format" = cs!"endswith") := by decide
+  simp only [e1, e2, e3, ↓reduceIte, noKw, List.isEmpty_nil, bind, Except.bind, h, formatGo_eq_pieces]
+  cases substPieces strs (fmtPieces s 0) <;> rfl
+
+/-- THE statement about `.format()`, for every template and every argument list:
+* the pieces are a partition of the template (rendering them gives the template back) and every
+  placeholder piece is a non-empty run of digits between two `@`;
+* if every placeholder number has an argument, the result is the concatenation, in template order,
+  of the literal characters and of each placeholder's argument text — each placeholder replaced
+  exactly once, and the inserted text is not scanned again (the pieces depend on the template only);
+* if some placeholder number has no argument the call is an error — also when other placeholders
+  are fine. -/
+theorem format_replaces_each_placeholder_once (s : Str) (raw : List Val) (strs : List Str)
+    (h : stringifyArgs raw = some strs) :
+    renderPieces (fmtPieces s 0) = s ∧
+    (∀ ds, .var ds ∈ fmtPieces s 0 → ds ≠ [] ∧ ∀ c ∈ ds, isDigit c = true) ∧
+    ((∀ ds, .var ds ∈ fmtPieces s 0 → natOfDigits ds < strs.length) →
+      methodCall (.str s) cs!"format" raw [] = .ok (.str ((fmtPieces s 0).map (pieceText strs)).flatten)) ∧
+    ((∃ ds, .var ds ∈ fmtPieces s 0 ∧ strs.length ≤ natOfDigits ds) →
+      methodCall (.str s) cs!"format" raw [] = .error .invalidArguments) := by
+  refine ⟨by simpa using renderPieces_fmtPieces s 0, fmtPieces_vars s 0, ?_, ?_⟩
+  · intro hall
+    rw [format_method s raw strs h]
+    cases hs : substPieces strs (fmtPieces s 0) with
+    | none =>
+      obtain ⟨ds, hm, hle⟩ := (substPieces_none_iff strs _).mp hs
+      have := hall ds hm
+      omega
+    | some out => simp only [substPieces_some strs _ out hs]
+  · intro hex
+    rw [format_method s raw strs h, (substPieces_none_iff strs _).mpr hex]
+
+/-- in particular, whatever text an argument has — even another placeholder — it comes out verbatim -/
+theorem format_inserted_text_inert (a b : Str) :
+    methodCall (.str cs!"@0@") cs!"format" [.str a] [] = .ok (.str a) ∧
+    methodCall (.str cs!"<@1@|@0@>") cs!"format" [.str a, .str b] [] =
+      .ok (.str (['<'] ++ b ++ ['|'] ++ a ++ ['>'])) := by
+  constructor
+  · rw [format_method _ _ [a] rfl]
+    have : fmtPieces cs!"@0@" 0 = [.var cs!"0"] := by rfl
+    simp [this, substPieces, natOfDigits, digitVal]
+  · rw [format_method _ _ [a, b] rfl]
+    have : fmtPieces cs!"<@1@|@0@>" 0 = [.lit '<', .var cs!"1", .lit '|', .var cs!"0", .lit '>'] := by rfl
+    simp [this, substPieces, natOfDigits, digitVal]
+
+example : methodCall (.str cs!"@0@@1@") cs!"format" [.str cs!"@1@", .str cs!"x"] [] = .ok (.str cs!"@1@x") := by
+  rfl
+example : methodCall (.str cs!"@0@ @2@") cs!"format" [.int 1, .bool true] [] = .error .invalidArguments := by
+  rfl
+example : methodCall (.str cs!"@0@|@0@|@1@") cs!"format" [.int 1, .bool true] [] = .ok (.str cs!"1|1|true") := by
+  rfl
+
+/-! ### f-strings: `@name@` likewise, values from the variable table -/
+
+/-- an f-string is: split the template at `@identifier@`, look every name up in the variable table,
+stringify (top level: unquoted), concatenate — one pass, the state untouched -/
+theorem fstring_substitution (ln : Nat) (tpl : Str) (st : St) :
+    eval hk (.fstr ln tpl) st =
+      (match fstrSubst st.vars (fstringPieces tpl 0) with
+       | .ok t => .ok (some (.str t)) (at_ st ln)
+       | .error e => .err e (at_ st ln)) ∧
+    renderPieces (fstringPieces tpl 0) = tpl := by
+  refine ⟨?_, by simpa using renderPieces_fstringPieces tpl 0⟩
+  simp only [eval, bind, EvalM.bind, setLine, fstring, fstringGo_eq]
+  cases fstrSubst st.vars (fstringPieces tpl 0) <;> rfl
+
+/-- a placeholder naming an undefined variable makes the f-string an error -/
+theorem fstring_undefined_is_error (vars : List (Str × Val)) : ∀ (ps : List FPiece) (nm : Str),
+    .var nm ∈ ps → lookup nm vars = none → ∃ e, fstrSubst vars ps = .error e
+  | [], nm, h, _ => by simp at h
+  | .lit c :: r, nm, h, hn => by
+    have h' : .var nm ∈ r := by
+      rcases List.mem_cons.mp h with h | h
+      · cases h
+      · exact h
+    obtain ⟨e, he⟩ := fstring_undefined_is_error vars r nm h' hn
+    exact ⟨e, by simp [fstrSubst, he, Except.map]⟩
+  | .var m :: r, nm, h, hn => by
+    simp only [fstrSubst]
+    cases hl : lookup m vars with
+    | none => exact ⟨_, rfl⟩
+    | some v =>
+      simp only []
+      cases stringify false v with
+      | none => exact ⟨_, rfl⟩
+      | some txt =>
+        have h' : .var nm ∈ r := by
+          rcases List.mem_cons.mp h with h | h
+          · cases h; rw [hn] at hl; cases hl
+          · exact h
+        obtain ⟨e, he⟩ := fstring_undefined_is_error vars r nm h' hn
+        exact ⟨e, by simp [he, Except.map]⟩
+
+/-- with one placeholder: the variable's text between the literal parts, verbatim -/
+theorem fstring_inserted_text_inert (v : Str) :
+    fstrSubst [(cs!"x", .str v)] (fstringPieces cs!"<@x@>" 0) = .ok (['<'] ++ v ++ ['>']) := by
+  have : fstringPieces cs!"<@x@>" 0 = [.lit '<', .var cs!"x", .lit '>'] := by rfl
+  simp [this, fstrSubst, lookup, stringify, Except.map]
+
+/-! ### laws of the string methods -/
+
+/-- `sep.join(s.split(sep)) == s` -/
+theorem join_split (s sep : Str) (h : sep ≠ []) : joinStr sep (splitOn s sep) = s := by
+  unfold splitOn
+  rw [join_splitGo sep sep s 0 [], replaceGo_self sep h]
+  simp
+
+/-- `new.join(s.split(old)) == s.replace(old, new)` -/
+theorem join_split_is_replace (s old new : Str) (h : old ≠ []) :
+    joinStr new (splitOn s old) = replaceStr s old new := by
+  unfold splitOn replaceStr
+  have : old.isEmpty = false := by cases old <;> simp_all
+  rw [join_splitGo old new s 0 [], this]
+  simp
+
+/-- `s.replace(x, x) == s` for every `x`, the empty string included -/
+theorem replace_self (s x : Str) : replaceStr s x x = s := by
+  unfold replaceStr
+  cases x with
+  | nil =>
+    simp only [List.isEmpty_nil, ↓reduceIte, List.nil_append]
+    induction s with
+    | nil => rfl
+    | cons c r ih => simp [ih]
+  | cons a t =>
+    simp only [List.isEmpty_cons, Bool.false_eq_true, ↓reduceIte]
+    rw [replaceGo_self _ (by simp)]
+    simp
+
+/-- `strip()` is idempotent and leaves no blank at either end; the same with an explicit character set -/
+theorem strip_idempotent (s chars : Str) :
+    strip (strip s) = strip s ∧ stripChars (stripChars s chars) chars = stripChars s chars := by
+  simp only [strip_eq_trimBoth, stripChars_eq_trimBoth]
+  exact ⟨trimBoth_idem _ s, trimBoth_idem _ s⟩
+
+theorem strip_ends (s : Str) :
+    (∀ a r, strip s = a :: r → isSpace a = false) ∧ (∀ a r, (strip s).reverse = a :: r → isSpace a = false) := by
+  rw [strip_eq_trimBoth]
+  exact trimBoth_ends isSpace s
+
+/-- `s.contains(p)` holds exactly when `p` occurs in `s`; a prefix occurs; the empty string always does -/
+theorem contains_iff_occurs (s p : Str) :
+    (hasSub p s = true ↔ ∃ a b, s = a ++ p ++ b) ∧
+    (p.isPrefixOf s = true → hasSub p s = true) ∧ hasSub [] s = true := by
+  refine ⟨hasSub_iff p s, ?_, ?_⟩
+  · intro h
+    obtain ⟨t, ht⟩ := List.isPrefixOf_iff_prefix.mp h
+    exact (hasSub_iff p s).mpr ⟨[], t, by simp [ht]⟩
+  · exact (hasSub_iff [] s).mpr ⟨[], s, by simp⟩
+
+/-- `substring(a, b)` inside the bounds is characters `a` … `b-1`; a negative start counts from the
+end; a start at or beyond the end gives the empty string (never an error) -/
+theorem substring_bounds (s : Str) :
+    (∀ a b : Nat, a ≤ b → b ≤ s.length →
+      sliceList s (some (a : Int)) (some (b : Int)) 1 = (s.drop a).take (b - a)) ∧
+    (∀ (k : Nat) (e : Option Int), 1 ≤ k → k ≤ s.length →
+      sliceList s (some (-(k : Int))) e 1 = sliceList s (some ((s.length - k : Nat) : Int)) e 1) ∧
+    (∀ (a : Int) (e : Option Int), a ≥ s.length → sliceList s (some a) e 1 = []) := by
+  refine ⟨?_, ?_, ?_⟩
+  · intro a b hab hb
+    unfold sliceList
+    rw [sliceIndices_one]
+    simp only [adjustIdx_nat a s.length (by omega), adjustIdx_nat b s.length hb]
+    exact sliceIdxGo_one_filterMap s b hb s.length a (by omega)
+  · intro k e h1 h2
+    unfold sliceList
+    rw [sliceIndices_one, sliceIndices_one]
+    simp only [adjustIdx_neg k s.length h1 h2, adjustIdx_nat (s.length - k) s.length (by omega)]
+  · intro a e ha
+    unfold sliceList
+    rw [sliceIndices_one]
+    simp only [adjustIdx_ge a s.length ha]
+    rw [sliceIdxGo_empty]
+    · rfl
+    · cases e with
+      | none => simp
+      | some x => exact adjustIdx_le x s.length
+
+/-- `to_upper()` / `to_lower()` are idempotent and keep the length; `underscorify()` is idempotent,
+keeps the length and leaves only `[A-Za-z0-9_]` -/
+theorem case_and_underscorify_laws (s : Str) :
+    (s.map upperC).map upperC = s.map upperC ∧ (s.map lowerC).map lowerC = s.map lowerC ∧
+    (s.map upperC).length = s.length ∧
+    underscorify (underscorify s) = underscorify s ∧ (underscorify s).length = s.length ∧
+    (∀ c ∈ underscorify s, isAlnum c = true ∨ c = '_') := by
+  refine ⟨?_, ?_, by simp, ?_, by simp [underscorify], ?_⟩
+  · simp [List.map_map, Function.comp_def, upperC_idem]
+  · simp [List.map_map, Function.comp_def, lowerC_idem]
+  · unfold underscorify
+    rw [List.map_map]
+    apply List.map_congr_left
+    intro c _
+    simp only [Function.comp]
+    by_cases h : isAlnum c
+    · simp [h]
+    · have : isAlnum '_' = false := by decide
+      simp [h, this]
+  · intro c hc
+    unfold underscorify at hc
+    obtain ⟨d, _, rfl⟩ := List.mem_map.mp hc
+    by_cases h : isAlnum d
+    · left; simp [h]
+    · right; simp [h]
+
+/-- what the evaluator's method dispatch computes for well-typed calls of the string methods: exactly
+the functions the laws above are about (signatures read from the regenerated table) -/
+theorem str_methods_compute (s p a b : Str) (parts : List Str) (i j : Int) :
+    methodCall (.str s) cs!"contains" [.str p] [] = .ok (.bool (hasSub p s)) ∧
+    methodCall (.str s) cs!"startswith" [.str p] [] = .ok (.bool (p.isPrefixOf s)) ∧
+    methodCall (.str s) cs!"split" [.str p] [] =
+      (if p.isEmpty then .error .invalidArguments else .ok (.arr ((splitOn s p).map .str))) ∧
+    methodCall (.str s) cs!"join" [.arr (parts.map .str)] [] = .ok (.str (joinStr s parts)) ∧
+    methodCall (.str s) cs!"replace" [.str a, .str b] [] = .ok (.str (replaceStr s a b)) ∧
+    methodCall (.str s) cs!"strip" [] [] = .ok (.str (strip s)) ∧
+    methodCall (.str s) cs!"strip" [.str p] [] = .ok (.str (stripChars s p)) ∧
+    methodCall (.str s) cs!"substring" [.int i, .int j] [] = .ok (.str (sliceList s (some i) (some j) 1)) ∧
+    methodCall (.str s) cs!"to_upper" [] [] = .ok (.str (s.map upperC)) ∧
+    methodCall (.str s) cs!"to_lower" [] [] = .ok (.str (s.map lowerC)) ∧
+    methodCall (.str s) cs!"underscorify" [] [] = .ok (.str (underscorify s)) := by
+  have hm : ∀ name, (methodsOf .str).contains name = true → (methodsOf (Val.str s).ty).contains name = true :=
+    fun _ h => h
+  refine ⟨?_, ?_, ?_, ?_, ?_, ?_, ?_, ?_, ?_, ?_, ?_⟩
+  · unfold methodCall; rw [hm _ (by decide)]
+    have hs : sigOf .str cs!"contains" = some (.pos [.str] []) := by decide
+    simp [strMethod, flattenL, flattenV, noKw, argCheck, hs, typedPos, allInst, isInstance, Val.ty, bind, Except.bind, pure, Except.pure]
+  · unfold methodCall; rw [hm _ (by decide)]
+    have hs : sigOf .str cs!"startswith" = some (.pos [.str] []) := by decide
+    simp [strMethod, flattenL, flattenV, noKw, argCheck, hs, typedPos, allInst, isInstance, Val.ty, bind, Except.bind, pure, Except.pure]
+  · unfold methodCall; rw [hm _ (by decide)]
+    have hs : sigOf .str cs!"split" = some (.pos [] [.str]) := by decide
+    simp [strMethod, flattenL, flattenV, noKw, argCheck, hs, typedPos, allInst, isInstance, Val.ty, bind, Except.bind, pure, Except.pure]
+    cases p <;> rfl
+  · unfold methodCall; rw [hm _ (by decide)]
+    have hs : sigOf .str cs!"join" = some (.var .str 0) := by decide
+    have hf : flattenL [Val.arr (parts.map Val.str)] = parts.map Val.str := by
+      simp [flattenL, flattenV, flattenL_strs]
+    simp [strMethod, hf, noKw, argCheck, hs, typedVar, strArgs_strs, bind, Except.bind, pure, Except.pure, isInstance, Val.ty]
+  · unfold methodCall; rw [hm _ (by decide)]
+    have hs : sigOf .str cs!"replace" = some (.pos [.str, .str] []) := by decide
+    simp [strMethod, flattenL, flattenV, noKw, argCheck, hs, typedPos, allInst, isInstance, Val.ty, bind, Except.bind, pure, Except.pure]
+  · unfold methodCall; rw [hm _ (by decide)]
+    have hs : sigOf .str cs!"strip" = some (.pos [] [.str]) := by decide
+    simp [strMethod, flattenL, noKw, argCheck, hs, typedPos, allInst, bind, Except.bind, pure, Except.pure]
+  · unfold methodCall; rw [hm _ (by decide)]
+    have hs : sigOf .str cs!"strip" = some (.pos [] [.str]) := by decide
+    simp [strMethod, flattenL, flattenV, noKw, argCheck, hs, typedPos, allInst, isInstance, Val.ty, bind, Except.bind, pure, Except.pure]
+  · unfold methodCall; rw [hm _ (by decide)]
+    have hs : sigOf .str cs!"substring" = some (.pos [] [.int, .int]) := by decide
+    simp [strMethod, flattenL, flattenV, noKw, argCheck, hs, typedPos, allInst, isInstance, Val.ty, asInt, bind, Except.bind, pure, Except.pure]
+  · unfold methodCall; rw [hm _ (by decide)]
+    have hs : sigOf .str cs!"to_upper" = some .noPos := by decide
+    simp [strMethod, flattenL, noKw, argCheck, hs, noPos, bind, Except.bind, pure, Except.pure]
+  · unfold methodCall; rw [hm _ (by decide)]
+    have hs : sigOf .str cs!"to_lower" = some .noPos := by decide
+    simp [strMethod, flattenL, noKw, argCheck, hs, noPos, bind, Except.bind, pure, Except.pure]
+  · unfold methodCall; rw [hm _ (by decide)]
+    have hs : sigOf .str cs!"underscorify" = some .noPos := by decide
+    simp [strMethod, flattenL, noKw, argCheck, hs, noPos, bind, Except.bind, pure, Except.pure]
+
+/-- at the level of the language: `sep.join(s.split(sep)) == s` for every `s` and non-empty `sep` -/
+theorem join_split_roundtrip (s sep : Str) (h : sep ≠ []) :
+    methodCall (.str s) cs!"split" [.str sep] [] = .ok (.arr ((splitOn s sep).map .str)) ∧
+    methodCall (.str sep) cs!"join" [.arr ((splitOn s sep).map .str)] [] = .ok (.str s) := by
+  constructor
+  · rw [(str_methods_compute s sep [] [] [] 0 0).2.2.1]
+    cases sep with
+    | nil => exact absurd rfl h
+    | cons c r => rfl
+  · rw [(str_methods_compute sep [] [] [] (splitOn s sep) 0 0).2.2.2.1, join_split s sep h]
+
+/-- `i.to_string().to_int() == i` for every integer: the decimal text (an optional `-`, then digits,
+never empty) is read back as the same number -/
+theorem to_string_to_int_roundtrip (i : Int) :
+    methodCall (.int i) cs!"to_string" [] [] = .ok (.str (intStr i)) ∧
+    methodCall (.str (intStr i)) cs!"to_int" [] [] = .ok (.int i) := by
+  constructor
+  · unfold methodCall
+    have hm : (methodsOf (Val.int i).ty).contains cs!"to_string" = true := by
+      show (methodsOf .int).contains cs!"to_string" = true
+      decide
+    rw [hm]
+    have hs : sigOf .int cs!"to_string" = some .noPos := by decide
+    have hf : intFormat i 0 cs!"dec" = intStr i := by
+      unfold intFormat intStr
+      simp
+    simp [intMethod, flattenL, lookup, argCheck, hs, noPos, bind, Except.bind, pure, Except.pure, hf]
+  · unfold methodCall
+    rw [methods_str_has cs!"to_int" (by decide)]
+    have hs : sigOf .str cs!"to_int" = some .noPos := by decide
+    simp [strMethod, flattenL, noKw, argCheck, hs, noPos, bind, Except.bind, pure, Except.pure, parseInt_intStr]
+
+/-! concrete instances (the hypotheses above are satisfiable, the functions compute what is expected) -/
+
+example : stringifyArgs [.int 1, .bool true, .str cs!"@0@"] = some [cs!"1", cs!"true", cs!"@0@"] := by rfl
+example : renderPieces (fmtPieces cs!"a@0@@@12@b@" 0) = cs!"a@0@@@12@b@" ∧
+    (fmtPieces cs!"a@0@@@12@b@" 0).length = 6 := by constructor <;> rfl
+example : joinStr cs!"," (splitOn cs!"a,,b," cs!",") = cs!"a,,b," := join_split _ _ (by simp)
+example : splitOn cs!"a,,b," cs!"," = [cs!"a", [], cs!"b", []] := by rfl
+example : splitOn cs!"aaa" cs!"aa" = [[], cs!"a"] ∧ replaceStr cs!"aaa" cs!"aa" cs!"b" = cs!"ba" := by constructor <;> rfl
+example : strip cs!"  a b \n" = cs!"a b" := by rfl
+example : sliceList cs!"abcd" (some (-3)) (some 3) 1 = cs!"bc" ∧ sliceList cs!"abcd" (some 7) none 1 = [] := by
+  constructor <;> rfl
+example : hasSub cs!"b," cs!"ab,c" = true ∧ hasSub cs!"ba" cs!"ab,c" = false := by constructor <;> rfl
+example : intStr (-120) = cs!"-120" ∧ parseInt cs!"-120" = some (-120) := by constructor <;> rfl
+example : fstrSubst [(cs!"x", .str cs!"@y@"), (cs!"y", .int 3)] (fstringPieces cs!"@x@|@y@|@1@" 0) = .ok cs!"@y@|3|@1@" := by rfl
+example : ∃ e, fstrSubst [(cs!"x", .int 1)] (fstringPieces cs!"@x@@nope@" 0) = .error e :=
+  fstring_undefined_is_error _ _ cs!"nope"
+    (by have : fstringPieces cs!"@x@@nope@" 0 = [.var cs!"x", .var cs!"nope"] := by rfl
+        rw [this]; simp) rfl
 
 /-! ### indexing -/
 
